@@ -78,14 +78,14 @@ theorem readInt64_sound {b i r} (h : readInt64 b = .ok i r) : parse b = some (.i
   split at h
   · next j r0 hh =>
     split at h
-    · cases h; exact parse_of_header_scalar hh
+    · cases h; exact parse_of_header_scalar (o := .int _) hh
     · cases h
   · cases h
 
 theorem readBool_sound {b v r} (h : readBool b = .ok v r) : parse b = some (.bool v, r) := by
   unfold readBool at h
   split at h
-  · next j r0 hh => cases h; exact parse_of_header_scalar hh
+  · next j r0 hh => cases h; exact parse_of_header_scalar (o := .bool _) hh
   · cases h
 
 theorem readNil_sound {b r} (h : readNil b = .ok () r) : parse b = some (.nil, r) := by
@@ -97,7 +97,7 @@ theorem readNil_sound {b r} (h : readNil b = .ok () r) : parse b = some (.nil, r
       cases h
       have : x = 0xc0 := by simpa using hx
       subst this
-      exact parse_of_header_scalar (by simp [header, classify_c0, headerOf])
+      exact parse_of_header_scalar (o := .nil) (by simp [header, classify_c0, headerOf])
     · cases h
   · cases h
 
